@@ -253,7 +253,7 @@ fn parse(ty: &str, inp: &[u8]) -> String {
 
 // routes out of a valid value: every one must give back exactly the text
 macro_rules! out_routes {
-	($T:ty, $B:ty, $v:expr, $inp:expr) => {{
+	($T:ty, $B:ty, $v:expr, $inp:expr, $tag:ident) => {{
 		let v: &$T = $v;
 		let inp: &[u8] = $inp;
 		let s = std::str::from_utf8(inp).unwrap();
@@ -274,17 +274,19 @@ macro_rules! out_routes {
 		if <$B as AsRef<str>>::as_ref(&o).as_bytes() != inp { bad.push("asref_str_owned"); }
 		if serde_json::to_string(v).unwrap() != serde_json::to_string(s).unwrap() { bad.push("serialize"); }
 		if serde_json::to_string(&o).unwrap() != serde_json::to_string(s).unwrap() { bad.push("serialize_owned"); }
-		$crate::streq!($T, $B, v, o, s, bad);
+		$crate::streq!($tag, v, o, s, bad);
 		if o.as_bytes() != inp { bad.push("unchanged_after"); }
 		if bad.is_empty() { "ok".to_string() } else { bad.join(",") }
 	}};
 }
 
 macro_rules! streq {
-	(iref::Uri, $B:ty, $v:ident, $o:ident, $s:ident, $bad:ident) => { streq!(@go $v, $o, $s, $bad); if !(*$v == *$s.as_bytes()) { $bad.push("eq_bytes"); } };
-	(iref::UriRef, $B:ty, $v:ident, $o:ident, $s:ident, $bad:ident) => { streq!(@go $v, $o, $s, $bad); if !(*$v == *$s.as_bytes()) { $bad.push("eq_bytes"); } };
-	(iref::Iri, $B:ty, $v:ident, $o:ident, $s:ident, $bad:ident) => { streq!(@go $v, $o, $s, $bad) };
-	(iref::IriRef, $B:ty, $v:ident, $o:ident, $s:ident, $bad:ident) => { streq!(@go $v, $o, $s, $bad) };
+	(main_b, $v:ident, $o:ident, $s:ident, $bad:ident) => { streq!(@go $v, $o, $s, $bad); if !(*$v == *$s.as_bytes()) { $bad.push("eq_bytes"); } };
+	(main_s, $v:ident, $o:ident, $s:ident, $bad:ident) => { streq!(@go $v, $o, $s, $bad) };
+	(refstr, $v:ident, $o:ident, $s:ident, $bad:ident) => { streq!(@refstr $v, $s, $bad) };
+	(upath, $v:ident, $o:ident, $s:ident, $bad:ident) => { streq!(@refstr $v, $s, $bad); if !(*$v == *$s) { $bad.push("eq_str"); } if !(*$v == $s.to_string()) { $bad.push("eq_string"); } if !(*$v == *$s.as_bytes()) { $bad.push("eq_bytes"); } };
+	(ipath, $v:ident, $o:ident, $s:ident, $bad:ident) => { streq!(@refstr $v, $s, $bad); if !(*$v == *$s) { $bad.push("eq_str"); } if !(*$v == $s.to_string()) { $bad.push("eq_string"); } if !($o == *$s) { $bad.push("eq_str_owned"); } };
+	(none, $v:ident, $o:ident, $s:ident, $bad:ident) => {};
 	(@go $v:ident, $o:ident, $s:ident, $bad:ident) => {
 		if !(*$v == *$s) { $bad.push("eq_str"); }
 		if !(*$v == $s) { $bad.push("eq_refstr"); }
@@ -293,21 +295,9 @@ macro_rules! streq {
 		let mut other = $s.to_string(); other.push('x');
 		if *$v == *other.as_str() { $bad.push("ne_str"); }
 		if $o == other { $bad.push("ne_string_owned"); }
-		let up = $s.to_uppercase();
-		if up != $s && *$v == *up.as_str() { $bad.push("ne_case"); }
+		let alt = if $s.contains("%41") { $s.replace("%41", "A") } else if $s.contains('A') { $s.replacen('A', "%41", 1) } else if $s.contains("%61") { $s.replace("%61", "a") } else { $s.replacen('a', "%61", 1) };
+		if alt != $s && *$v == *alt.as_str() { $bad.push("eq_other_spelling"); }
 	};
-	(uri::Fragment, $B:ty, $v:ident, $o:ident, $s:ident, $bad:ident) => { streq!(@refstr $v, $s, $bad) };
-	(uri::Host, $B:ty, $v:ident, $o:ident, $s:ident, $bad:ident) => { streq!(@refstr $v, $s, $bad) };
-	(uri::UserInfo, $B:ty, $v:ident, $o:ident, $s:ident, $bad:ident) => { streq!(@refstr $v, $s, $bad) };
-	(uri::Authority, $B:ty, $v:ident, $o:ident, $s:ident, $bad:ident) => { streq!(@refstr $v, $s, $bad) };
-	(uri::Query, $B:ty, $v:ident, $o:ident, $s:ident, $bad:ident) => { streq!(@refstr $v, $s, $bad) };
-	(iri::Fragment, $B:ty, $v:ident, $o:ident, $s:ident, $bad:ident) => { streq!(@refstr $v, $s, $bad) };
-	(iri::Host, $B:ty, $v:ident, $o:ident, $s:ident, $bad:ident) => { streq!(@refstr $v, $s, $bad) };
-	(iri::UserInfo, $B:ty, $v:ident, $o:ident, $s:ident, $bad:ident) => { streq!(@refstr $v, $s, $bad) };
-	(iri::Authority, $B:ty, $v:ident, $o:ident, $s:ident, $bad:ident) => { streq!(@refstr $v, $s, $bad) };
-	(iri::Query, $B:ty, $v:ident, $o:ident, $s:ident, $bad:ident) => { streq!(@refstr $v, $s, $bad) };
-	(uri::Path, $B:ty, $v:ident, $o:ident, $s:ident, $bad:ident) => { streq!(@refstr $v, $s, $bad); if !(*$v == *$s) { $bad.push("eq_str"); } if !(*$v == $s.to_string()) { $bad.push("eq_string"); } if !(*$v == *$s.as_bytes()) { $bad.push("eq_bytes"); } };
-	(iri::Path, $B:ty, $v:ident, $o:ident, $s:ident, $bad:ident) => { streq!(@refstr $v, $s, $bad); if !(*$v == *$s) { $bad.push("eq_str"); } if !(*$v == $s.to_string()) { $bad.push("eq_string"); } if !($o == *$s) { $bad.push("eq_str_owned"); } };
 	(@refstr $v:ident, $s:ident, $bad:ident) => {
 		if !(*$v == $s) { $bad.push("eq_refstr"); }
 		let mut other = $s.to_string(); other.push('x');
@@ -316,36 +306,35 @@ macro_rules! streq {
 		let alt = if $s.contains("%41") { $s.replace("%41", "A") } else if $s.contains('A') { $s.replacen('A', "%41", 1) } else if $s.contains("%61") { $s.replace("%61", "a") } else { $s.replacen('a', "%61", 1) };
 		if alt != $s && *$v == alt.as_str() { $bad.push("eq_other_spelling"); }
 	};
-	($T:ty, $B:ty, $v:ident, $o:ident, $s:ident, $bad:ident) => {};
 }
 pub(crate) use streq;
 
 fn out(ty: &str, inp: &[u8]) -> String {
 	use iref::{iri, uri};
 	let s = match std::str::from_utf8(inp) { Ok(s) => s, Err(_) => return "ERR".into() };
-	macro_rules! b { ($T:ty, $B:ty) => { match <$T>::new(inp) { Ok(v) => out_routes!($T, $B, v, inp), Err(_) => "ERR".to_string() } } }
-	macro_rules! c { ($T:ty, $B:ty) => { match <$T>::new(s) { Ok(v) => out_routes!($T, $B, v, inp), Err(_) => "ERR".to_string() } } }
+	macro_rules! b { ($T:ty, $B:ty, $tag:ident) => { match <$T>::new(inp) { Ok(v) => out_routes!($T, $B, v, inp, $tag), Err(_) => "ERR".to_string() } } }
+	macro_rules! c { ($T:ty, $B:ty, $tag:ident) => { match <$T>::new(s) { Ok(v) => out_routes!($T, $B, v, inp, $tag), Err(_) => "ERR".to_string() } } }
 	match ty {
-		"uri" => b!(iref::Uri, iref::UriBuf),
-		"uri_reference" => b!(iref::UriRef, iref::UriRefBuf),
-		"scheme" => b!(uri::Scheme, uri::SchemeBuf),
-		"uri_authority" => b!(uri::Authority, uri::AuthorityBuf),
-		"uri_user_info" => b!(uri::UserInfo, uri::UserInfoBuf),
-		"uri_host" => b!(uri::Host, uri::HostBuf),
-		"uri_port" => b!(uri::Port, uri::PortBuf),
-		"uri_path" => b!(uri::Path, uri::PathBuf),
-		"uri_path_segment" => b!(uri::Segment, uri::SegmentBuf),
-		"uri_query" => b!(uri::Query, uri::QueryBuf),
-		"uri_fragment" => b!(uri::Fragment, uri::FragmentBuf),
-		"iri" => c!(iref::Iri, iref::IriBuf),
-		"iri_reference" => c!(iref::IriRef, iref::IriRefBuf),
-		"iri_authority" => c!(iri::Authority, iri::AuthorityBuf),
-		"iri_user_info" => c!(iri::UserInfo, iri::UserInfoBuf),
-		"iri_host" => c!(iri::Host, iri::HostBuf),
-		"iri_path" => c!(iri::Path, iri::PathBuf),
-		"iri_path_segment" => c!(iri::Segment, iri::SegmentBuf),
-		"iri_query" => c!(iri::Query, iri::QueryBuf),
-		"iri_fragment" => c!(iri::Fragment, iri::FragmentBuf),
+		"uri" => b!(iref::Uri, iref::UriBuf, main_b),
+		"uri_reference" => b!(iref::UriRef, iref::UriRefBuf, main_b),
+		"scheme" => b!(uri::Scheme, uri::SchemeBuf, none),
+		"uri_authority" => b!(uri::Authority, uri::AuthorityBuf, refstr),
+		"uri_user_info" => b!(uri::UserInfo, uri::UserInfoBuf, refstr),
+		"uri_host" => b!(uri::Host, uri::HostBuf, refstr),
+		"uri_port" => b!(uri::Port, uri::PortBuf, none),
+		"uri_path" => b!(uri::Path, uri::PathBuf, upath),
+		"uri_path_segment" => b!(uri::Segment, uri::SegmentBuf, none),
+		"uri_query" => b!(uri::Query, uri::QueryBuf, refstr),
+		"uri_fragment" => b!(uri::Fragment, uri::FragmentBuf, refstr),
+		"iri" => c!(iref::Iri, iref::IriBuf, main_s),
+		"iri_reference" => c!(iref::IriRef, iref::IriRefBuf, main_s),
+		"iri_authority" => c!(iri::Authority, iri::AuthorityBuf, refstr),
+		"iri_user_info" => c!(iri::UserInfo, iri::UserInfoBuf, refstr),
+		"iri_host" => c!(iri::Host, iri::HostBuf, refstr),
+		"iri_path" => c!(iri::Path, iri::PathBuf, ipath),
+		"iri_path_segment" => c!(iri::Segment, iri::SegmentBuf, none),
+		"iri_query" => c!(iri::Query, iri::QueryBuf, refstr),
+		"iri_fragment" => c!(iri::Fragment, iri::FragmentBuf, refstr),
 		_ => panic!("type"),
 	}
 }
